@@ -12,7 +12,9 @@ TITLE = "Event definitions (-b) are the documented open/closed intervals"
 RULE = ("Exhaustive: every bin type x every non-decreasing threshold list of length 1-3 over a 3-value grid x the "
         "complete set of order relations of a value to the thresholds (below all, equal to each, strictly between, "
         "above all, NaN, +inf, -inf), scalar and array call forms, plus all value pairs for the 2x2 table; random: "
-        "arbitrary float thresholds/values. Oracle: the documented comparison written as plain Python. "
+        "arbitrary float thresholds/values; counts-figure: the per-event counts drawn by -hist, freq and cond for generated "
+        "datasets whose values lie exactly on the first/interior/last thresholds, all bin types the diagram accepts. "
+        "Oracle: the documented comparison written as plain Python. "
         "A case (bin type, thresholds, value) is non-trivial when the value equals a threshold, is +-inf or NaN; "
         "distinct by content hash.")
 ASSUMPTIONS = [
@@ -227,6 +229,43 @@ def check_ens(case, ctx):
             ctx.fail("C07/agree/ensemble-prob", case, "event %s(%r,%r): (event observed, probability) pairs %r; from the non-missing members %r" % (b, t0, t1, got[:6], exp[:6]))
 
 
+COUNT_DIAGRAMS = ["hist", "hist", "freq", "cond"]
+
+
+def counts_strategy(tier):
+    """The diagrams that count values per event (-hist, freq, cond), with bin edges taken from the data so that
+    values lie exactly on thresholds (first, interior and last)."""
+    from .. import gen
+    from . import c16
+
+    @st.composite
+    def s(draw):
+        name = draw(st.sampled_from(COUNT_DIAGRAMS))
+        spec = draw(gen.dataset(max_inputs=2, clim=False, flavor="det", core_max=3, extra_max=1, allow_drop=False, allow_obsless=False,
+                                allow_all_missing=False, ordered_dims=True))
+        opt = c16.DIAGRAMS[name]["cls"].options(draw, spec)
+        vals = sorted(set(v for d in spec["inputs"] for nm in ("obs", "fcst") for pl in (d.get(nm) or []) for row in pl for v in row if v is not None))
+        if len(vals) >= 2:
+            # thresholds that ARE data values: the first, interior and last threshold all coincide with a value
+            opt["edges"] = sorted(draw(st.lists(st.sampled_from(vals), min_size=2, max_size=4, unique=True)))
+        return {"diagram": name, "spec": spec, "opt": opt}
+    return s()
+
+
+def check_counts(case, ctx):
+    from . import c16
+    if "diagram" not in case:
+        return check_case(case, ctx)
+    edges = case["opt"].get("edges") or []
+    vals = set(v for d in case["spec"]["inputs"] for nm in ("obs", "fcst") for pl in (d.get(nm) or []) for row in pl for v in row if v is not None)
+    if edges and edges[-1] in vals:
+        ctx.label("counts/value-on-last-threshold")
+    if edges and edges[0] in vals:
+        ctx.label("counts/value-on-first-threshold")
+    ctx.label("counts/%s/%s" % (case["diagram"], case["opt"].get("bin")))
+    c16.check_diagram(case, ctx, pid="C07/counts")
+
+
 def cmpx_close(a, b, tol=1e-9):
     from .. import cmpx
     return cmpx.close(a, b, tol)
@@ -237,4 +276,5 @@ def campaigns(tier):
         Enum("relations", items, check_case, "8 bin types x 19 threshold lists x complete relation set"),
         Hyp("random", rand_strategy, check_case, quick=1600, thorough=40000),
         Hyp("ensemble-prob", ens_strategy, check_ens, quick=800, thorough=20000),
+        Hyp("counts-figure", counts_strategy, check_counts, quick=640, thorough=12000, budget_quick=60, budget_thorough=1200),
     ]
